@@ -89,7 +89,7 @@ def expect(case):
         x, y = I(a); return "%d | s:%d:%d" % (wrap(x - y), x, y)
     if op == "sgs":
         x, y = S(a); return "%s | s:%s:%s" % (hx(x + y), hx(x), hx(y))
-    if op in ("moi", "mfi"):
+    if op in ("moi", "mfi", "mmi"):
         e, x, y = I(a); return "%d %d | s:%d:%d" % (e, wrap(x - y), x, y)
     if op in ("mos", "mfs"):
         e, x, y = S(a); return "%s %s | s:%s:%s" % (hx(e), hx(x + y), hx(x), hx(y))
@@ -106,7 +106,7 @@ WHAT = {
     "fre": "eq.From(f).Equal(a,b) is not f(a,b)", "fro": "ord.From(f).Compare(a,b) is not f(a,b)",
     "sgi": "semigroup.From(op).Combine(a,b) is not op(a,b)", "sgs": "semigroup.From(op).Combine(a,b) is not op(a,b)",
     "moi": "monoid.FromOp(e,op): Empty() is not e or Combine(a,b) is not op(a,b)", "mos": "monoid.FromOp(e,op): Empty() is not e or Combine(a,b) is not op(a,b)",
-    "mfi": "monoid.From(e,s): Empty() is not e or Combine(a,b) is not s.Combine(a,b)", "mfs": "monoid.From(e,s): Empty() is not e or Combine(a,b) is not s.Combine(a,b)",
+    "mfi": "monoid.From(e,s): Empty() is not e or Combine(a,b) is not s.Combine(a,b)", "mmi": "monoid.From(e,m) over a semigroup that is itself a monoid: Empty() is not e or Combine(a,b) is not m.Combine(a,b)", "mfs": "monoid.From(e,s): Empty() is not e or Combine(a,b) is not s.Combine(a,b)",
 }
 
 
@@ -184,7 +184,7 @@ def gen_cases(ctx, scale):
         cases += ["trs %s %s %s" % (hx(a), hx(b), hx(c)), "ords %s %s" % (hx(a), hx(b)), "eqs %s %s" % (hx(b), hx(c))]
         k = rng.choice([1, 2, 3, 10, 1000, 2 ** 31, 2 ** 62])
         cases += ["cme %d %d %d" % (k, x, y), "cmo %d %d %d" % (k, y, z), "fre %d %d" % (x, z), "fro %d %d" % (x, y),
-                  "sgi %d %d" % (x, y), "moi %d %d %d" % (z, x, y), "mfi %d %d %d" % (x, y, z)]
+                  "sgi %d %d" % (x, y), "moi %d %d %d" % (z, x, y), "mfi %d %d %d" % (x, y, z), "mmi %d %d %d" % (z, x, y)]
         ks = rng.randrange(0, 3)
         cases += ["cmes %d %s %s" % (ks, hx(a), hx(b)), "cmos %d %s %s" % (ks, hx(b), hx(c)), "sgs %s %s" % (hx(a), hx(b)),
                   "mos %s %s %s" % (hx(c), hx(a), hx(b)), "mfs %s %s %s" % (hx(a), hx(b), hx(c))]
@@ -202,7 +202,7 @@ def swapped(case):
     w = case.split()
     if w[0] in ("cme", "cmo", "cmes", "cmos"):
         return " ".join([w[0], w[1], w[3], w[2]])
-    if w[0] in ("moi", "mfi", "mos", "mfs"):
+    if w[0] in ("moi", "mfi", "mmi", "mos", "mfs"):
         return " ".join([w[0], w[1], w[3], w[2]])
     if len(w) == 3:
         return " ".join([w[0], w[2], w[1]])
